@@ -1223,3 +1223,32 @@ pub fn fsinfo(img: &dyn Img, g: &Geom) -> (u32, u32, u32, u32, u32) {
     let o = g.fsinfo_off();
     (rd32(img, o), rd32(img, o + 484), rd32(img, o + 488), rd32(img, o + 492), rd32(img, o + 508))
 }
+
+
+/// content of a file read straight through the table from its entry's first cluster and size, without the
+/// ownership bookkeeping of `decode` (which gives a cluster to the first entry that claims it). None if the chain
+/// is shorter than the size, leaves the data region or loops.
+pub fn read_chain_raw(img: &dyn Img, g: &Geom, first: u32, size: u64) -> Option<Vec<u8>> {
+    let cs = g.cluster_size();
+    let mut out = Vec::with_capacity(size as usize);
+    let mut c = first;
+    let mut left = size;
+    let mut steps = 0u64;
+    while left > 0 {
+        if c < 2 || c > g.max_cluster() || steps > g.clusters {
+            return None;
+        }
+        let n = left.min(cs);
+        out.extend_from_slice(&rdv(img, g.cluster_off(c), n as usize));
+        left -= n;
+        steps += 1;
+        if left > 0 {
+            let v = g.fat(img, c);
+            if g.is_eoc(v) || v == 0 || v == g.bad_mark() {
+                return None;
+            }
+            c = v;
+        }
+    }
+    Some(out)
+}
